@@ -780,6 +780,7 @@ type applyOutcome struct {
 
 // applyBlock drives one block through a node, with an optional injected crash and mid-block tasks.
 func (e *Exec) applyBlock(n *Node, rec *BlockRec, o applyOpts) (out applyOutcome) {
+	defer n.enterEnv()()
 	h := rec.B.Height
 	n.curHdr = rec.B
 	nTx := len(rec.B.Txs)
